@@ -337,7 +337,33 @@ def forwardref_obligations(chk):
                        {"outcome": out.kind, "why": str(out.value)}))
 
 
+def should_unwrap_obligations(chk):
+    """should_unwrap(t): exactly the Final[...] / ClassVar[...] qualifier forms are stripped - whatever they qualify (a Literal
+    included: fix bf409af; the unwrap contract takes this predicate as 'is a qualifier layer')."""
+    from props import uf_world as uw
+    from pyvc.core import to_bool_term
+    I = uw.make_interp(raising=False)
+    func = "typelib.py.inspection.should_unwrap"
+    P = {n: z3.Function("P_" + n, Val, BoolS) for n in ("isclassvartype", "isfinal", "isliteral")}
+    for n in P:
+        I.stubs[f"typelib.py.inspection.{n}"] = Stub(f"inspection.{n}", (lambda n: lambda I, p, a, k: SBool(P[n](to_val(a[0]))))(n),
+                                                     f"{n}(t) (C17 contract)")
+
+    def mk(I, path):
+        t = path.fresh("t")
+        return [SV(t)], {}, {"t": t}
+    for pi, (path, out, obls, writes, cur) in enumerate(I.run_function(func, mk)):
+        t = cur["t"]
+        goal = z3.BoolVal(False)
+        if out.kind == "ret":
+            goal = to_bool_term(out.value) == z3.Or(P["isclassvartype"](t), P["isfinal"](t))
+        chk.add(Ob(func, "exactly-the-qualifier-forms-are-stripped-whatever-they-qualify", f"p{pi}", path.hyps, goal,
+                   {"outcome": out.kind, "why": str(out.value)[:160] if out.kind != "ret" else ""}))
+    chk.trusted.update(I.assumed_used)
+
+
 def obligations(chk):
+    should_unwrap_obligations(chk)
     U.obligations(chk)
     for mod, fname, noop in FACTORIES:
         factory_obligations(chk, mod, fname, noop)
